@@ -184,7 +184,18 @@ func main() {
 	algs := flag.String("algs", "gr,wb,sb,lb", "restrict E1/E3 to these rule sets")
 	e2props := flag.String("props", "g,w,s,l,e,m,G,L,E", "restrict E2 to these lookups")
 	inputsFile := flag.String("inputs-file", "", "file with one hex input per line; replaces the corpus and, with -n 0, the generated stream")
+	stress := flag.Int("stress", 0, "concurrency stress with this many goroutines (no other stage runs); build with -race")
+	stressRounds := flag.Int("stress-rounds", 20, "")
 	flag.Parse()
+
+	if len(apiFuncs) == 0 {
+		return
+	}
+	if *stress > 0 {
+		// no library call may happen before the concurrent phase (no class scan, no generators)
+		runStress(*stress, *stressRounds, *corpus, *outPath)
+		return
+	}
 
 	t0 := time.Now()
 	loadFacts(*factsPath)
@@ -248,7 +259,7 @@ func main() {
 	var d *driver
 	needDriver := false
 	for _, s := range strings.Split(*stages, ",") {
-		if s == "E3" || s == "E4" || s == "E5" || s == "E6" || s == "SPEC" {
+		if s == "E3" || s == "E4" || s == "E5" || s == "E6" || s == "SPEC" || s == "WIDTHSPEC" {
 			needDriver = true
 		}
 	}
@@ -279,6 +290,12 @@ func main() {
 			res.Stages = append(res.Stages, stageE5(d, cs, res.Distribution, onlyMap, thorough))
 		case "E6":
 			res.Stages = append(res.Stages, stageE6(d, *seed, *n6, *amb))
+		case "ALLOC":
+			res.Stages = append(res.Stages, stageAlloc(cs, thorough))
+		case "RW":
+			res.Stages = append(res.Stages, stageRW(*driverPath, *amb))
+		case "WIDTHSPEC":
+			res.Stages = append(res.Stages, stageWidthSpec(d, cs, thorough))
 		case "REF":
 			res.Stages = append(res.Stages, stageRef(*refDir, algSet(*e2props)))
 		case "SPEC":
